@@ -133,3 +133,34 @@ def simplify_single(record):
 
 def base_record(prop, seed, run, tier):
     return {'property': prop, 'seed': seed, 'run': run, 'tier': tier, 'debug': True, 'clients': [], 'ops': []}
+
+
+def seam_break(ev):
+    """for proxied chains: the copy handed to the first component must equal the step's input, each component
+    must start from what the previous one left, and the returned state must be what the last one left.
+    Returns None or (where, before-world, after-world)."""
+    log = ev.get('complog') or []
+    if not log or 'w1' not in ev:
+        return None
+    if log[0][1] != ev['w0']:
+        return ('input_vs_first_component', ev['w0'], log[0][1])
+    for (a, b) in zip(log, log[1:]):
+        if a[2] != b[1]:
+            return (f'between_{a[0]}_and_{b[0]}', a[2], b[1])
+    if log[-1][2] != ev['w1']:
+        return ('last_component_vs_returned_state', log[-1][2], ev['w1'])
+    return None
+
+
+def world_diff(a, b):
+    if (a['h'], a['w']) != (b['h'], b['w']):
+        return 'shape'
+    if a['agent'][:3] != b['agent'][:3]:
+        return 'agent_pose'
+    if a['agent'][3] != b['agent'][3]:
+        return 'held_' + a['agent'][3][0]
+    for y in range(a['h']):
+        for x in range(a['w']):
+            if a['cells'][y][x] != b['cells'][y][x]:
+                return 'cell_' + a['cells'][y][x][0]
+    return 'none'
